@@ -57,12 +57,12 @@ except Exception:
 meta['property'] = prop
 meta['confirmation_by_verif'] = conf
 print(json.dumps(conf, indent=1)[:1500])
+json.dump(meta, open(mp, 'w'), indent=1)
 if ok:
     rc, out = sh([sys.executable, os.path.join(V, 'tools', 'seedtest.py'), dst] + checks)
     print(out[-1500:])
     try:
-        meta['verif_checks'] = json.load(open(os.path.join(dst, 'verif_result.json')))
-        os.unlink(os.path.join(dst, 'verif_result.json'))
+        meta['verif_checks'] = json.load(open(mp)).get('verif_checks', {})
     except Exception:
         pass
 json.dump(meta, open(mp, 'w'), indent=1)
